@@ -44,27 +44,32 @@ VERDICT = {1: "rendering the diagnostic crashed", 2: "the diagnostic carries no 
 
 # ---------------------------------------------------------------- generator
 PLAIN = ["a", "hello", "x y", "é", "naïve", "日本語", "漢字かな", "👍", "é", "à́b", "Ω≈ç", "\t", "a\tb", "#", "#[", "]#",
-         "{", "}", "'", "1 + 2", "zzz", " ", "", "🇯🇵", "ｆｕｌｌ", "한글"]
-ESCAPES = ["\\n", "\\t", "\\\"", "\\\\", "\\'", "\\0", "\\r", "\\x41"]
+         "{", "}", "1 + 2", "zzz", " ", "", "🇯🇵", "ｆｕｌｌ", "한글"]
+ESCAPES = ["\\n", "\\t", "\\\"", "\\\\", "\\'", "\\0", "\\r", "\\x41"]   # \\xHH only in plain single-line literals (last entry)
 NAMES = ["zzz", "zzz", "zzz", "undefined_name", "qq1", "未定義", "zé", "zzz!"]
 COMMENTS = ["#[ c ]#", "#[]#", "#[ 日本語 \"q\" ]#", "#[ a #[ nested ]# b ]#", "#[ two\n   lines ]#"]
 
 
-def gen_string(rng, multi=False):
+def gen_body(rng, multi=False):
     parts = []
-    for _ in range(rng.randint(0, 4)):
+    interp = False
+    for _ in range(rng.randint(0, 3)):
         k = rng.random()
         if k < 0.5:
             parts.append(rng.choice(PLAIN))
         elif k < 0.9:
-            parts.append(rng.choice(ESCAPES))
+            # the lexer knows \\xHH only in single-line literals before the first interpolation
+            parts.append(rng.choice(ESCAPES[:-1] if multi or interp else ESCAPES))
         else:
+            interp = True
             parts.append("\\{" + rng.choice(["1", "1 + 1", "n0"]) + "}")
-    body = "".join(parts)
-    if multi:
-        h = len(body) // 2
-        return '"""' + body[:h] + "\n" + rng.choice(["", "  ", "x"]) + body[h:] + '"""'
-    return '"' + body + '"'
+    return "".join(parts)
+
+
+def gen_string(rng, multi=False):
+    if multi:      # the two lines are generated apart: no escape or interpolation is cut by the line break
+        return '"""' + gen_body(rng, True) + "\n" + rng.choice(["", "  ", "x"]) + gen_body(rng, True) + '"""'
+    return '"' + gen_body(rng) + '"'
 
 
 def gen_piece(rng):
@@ -150,7 +155,7 @@ def parse_rendering(text):
     rows = []
     i = 0
     while i < len(lines):
-        m = re.match(r"^ *(\d+) [|│] (.*)$", lines[i])
+        m = re.match(r"^ *(\d+) +[|│] (.*)$", lines[i])
         if m and i + 1 < len(lines):
             g = re.match(r"^ *[:·]( *)(\S*) *$", lines[i + 1])
             # a multi-line string piece can look like a code row: require the gutter below
